@@ -592,6 +592,36 @@ func c20(e *e3, thorough bool) {
 				}
 			}
 		}
+		// one stub, two invocations: what the first one met (a closed quit) must not stick
+		for _, fixErr := range []error{nil, io.EOF} {
+			for name, mk := range map[string]func() func(<-chan struct{}) error{
+				"publish": func() func(<-chan struct{}) error {
+					st := mqtttest.NewPublishStub(fixErr)
+					return func(q <-chan struct{}) error { return st(q, nil, "t") }
+				},
+				"subscribe": func() func(<-chan struct{}) error {
+					st := mqtttest.NewSubscribeStub(fixErr)
+					return func(q <-chan struct{}) error { return st(q, "t") }
+				},
+				"unsubscribe": func() func(<-chan struct{}) error {
+					st := mqtttest.NewUnsubscribeStub(fixErr)
+					return func(q <-chan struct{}) error { return st(q, "t") }
+				},
+			} {
+				quits := []<-chan struct{}{nil, make(chan struct{}), closedQuit}
+				for q1 := range quits {
+					for q2 := range quits {
+						st := mk()
+						st(quits[q1])
+						err := st(quits[q2])
+						e.evals.Add(1)
+						if q2 == 2 && !errors.Is(err, mqtt.ErrCanceled) || q2 != 2 && err != fixErr {
+							e.violate("C20", "stub-contract#sequence", "%s stub (fix %v): invocation with quit variant %d after one with variant %d returned %v", name, fixErr, q2, q1, err)
+						}
+					}
+				}
+			}
+		}
 		// exchange stub scripts (runs in a bubble: the stub sleeps)
 		entries := []error{errors.New("plain"), fmt.Errorf("wrapped: %w", mqtt.ErrClosed), mqtttest.ExchangeBlock{}, mqtttest.ExchangeBlock{Delay: time.Millisecond}}
 		var scripts [][]error
